@@ -14,7 +14,7 @@
    theorems C06_sentence_.. carry no premise about tokens at all; the one-token entries outside the alnum class are classified. *)
 Require Import Base Tables_lexer Lexer Condense Tables_spellnorm SpellDecision SpellDecisionProofs.
 Require Import Tables_f24 C06Words C06WordsProofs C06TextProofs C06AlnumProofs C06DictProofs.
-Require Import TokenInv C06Sentence C06SentenceProofs C06ShapesProofs.
+Require Import TokenInv C06Sentence C06SentenceProofs C06ShapesProofs C06SentenceDot C06SentenceDotProofs C06CondFun C06SentenceContr C06SentenceContrProofs.
 
 (* the decision, exactly: a word token with text w is accepted iff some entry has its id and is compatible with
    the active dialect, and some entry is spelt — up to normalisation of both sides (ebb53b3) — exactly like w or
@@ -817,3 +817,239 @@ Example C06_nonvacuous_shapes :
   dotted_initialism f24_uni [78;46;83;46;65;46]%N = true /\ latin_abbrev [101;116;32;97;108;46]%N = true /\
   shape_count f24_uni [77;80;51]%N = 0.
 Proof. repeat split; try (vm_compute; reflexivity). apply mem_text_In; vm_compute; reflexivity. Qed.
+
+(* ================= phase 6, step 1: a sentence-FINAL PERIOD ================= *)
+(* The class (Model/C06SentenceDot.v): a sentence of the class of phase 5 followed by one `.` as the last character of the
+   text (`!` and `?` are separator punctuation of phase 5 already), where the last item, when it is a word, is none of the
+   words condense_latin looks for in front of a period — etc, vs, al in any capitalisation (last_word_ok; decidable, on the
+   TEXT).  Then Document::new_plain_english yields one token per item and one Period token; the Word tokens are the word
+   items.  New in the proof: the dispatch lemma for a text whose only `.` is its last character (lex_hostname_token searches
+   the `.` in a slice that excludes the last scanned character), lex_plural_digit / lex_word in front of `.`, and the passes:
+   the dotted-initialism rule and the ellipsis rule need two periods, condense_latin the excluded words. *)
+Theorem C06_sentence_period_tokens :
+  forall u : uni, letter_laws u -> digit_law u -> forall its : list sitem, sentp_ok u its = true ->
+  document_plain u (sentp_text its) = Ok (sentp_tokens its) /\ doc_words u (sentp_text its) = Ok (sent_words 0 its).
+Proof. exact (fun u L Dl its H => conj (sentp_document u L Dl its H) (sentp_doc_words u L Dl its H)). Qed.
+Check C06_sentence_period_tokens :
+  forall u : uni, letter_laws u -> digit_law u -> forall its : list sitem, sentp_ok u its = true ->
+  document_plain u (sentp_text its) = Ok (sentp_tokens its) /\ doc_words u (sentp_text its) = Ok (sent_words 0 its).
+Print Assumptions C06_sentence_period_tokens.
+
+(* the passes, for ANY token vector  ts0 ++ [Period]  with ts0 as in C06_passes_identity: Document::parse's passes change
+   nothing unless the token before the period is a Word whose text condense_latin matches (latin_hit: etc / vs, or a
+   two-character word that is `al` up to ASCII case).  No Unicode law. *)
+Theorem C06_passes_identity_period :
+  forall (src : text) (ts0 : list token) (p : token), Tiling 0 (length src) (ts0 ++ [p]) -> simple_toks ts0 ->
+  no_adj_spaces ts0 -> is_period (tkind_of p) = true ->
+  (forall ts1 w, ts0 = ts1 ++ [w] -> is_word (tkind_of w) = true -> latin_hit src w = false) ->
+  document_passes src (ts0 ++ [p]) = Ok (ts0 ++ [p]).
+Proof. exact passes_identity_dot. Qed.
+Check C06_passes_identity_period :
+  forall (src : text) (ts0 : list token) (p : token), Tiling 0 (length src) (ts0 ++ [p]) -> simple_toks ts0 ->
+  no_adj_spaces ts0 -> is_period (tkind_of p) = true ->
+  (forall ts1 w, ts0 = ts1 ++ [w] -> is_word (tkind_of w) = true -> latin_hit src w = false) ->
+  document_passes src (ts0 ++ [p]) = Ok (ts0 ++ [p]).
+Print Assumptions C06_passes_identity_period.
+
+(* converse half in a sentence that ends with a period: a word item whose id no entry has is reported with exactly its span *)
+Theorem C06_sentence_period_unlisted_reported :
+  forall (u : uni) (lc uc : char -> list char) (is_lower is_upper : char -> bool) (fuzzy : dict -> text -> nat -> list text),
+  letter_laws u -> digit_law u -> (forall c, uc c <> []) -> fuzzy_listed fuzzy ->
+  forall D d pre w post, dict_nodup lc is_lower D -> sentp_ok u (pre ++ SWord w :: post) = true ->
+  (forall e, In e D -> word_id lc is_lower (canon e) <> word_id lc is_lower w) ->
+  exists ls sg, lint_text u lc uc is_lower is_upper fuzzy D d (sentp_text (pre ++ SWord w :: post)) = Ok ls /\
+                In (mkslint (word_at pre w) sg) ls.
+Proof. exact sentp_unlisted_reported. Qed.
+Check C06_sentence_period_unlisted_reported :
+  forall (u : uni) (lc uc : char -> list char) (is_lower is_upper : char -> bool) (fuzzy : dict -> text -> nat -> list text),
+  letter_laws u -> digit_law u -> (forall c, uc c <> []) -> fuzzy_listed fuzzy ->
+  forall D d pre w post, dict_nodup lc is_lower D -> sentp_ok u (pre ++ SWord w :: post) = true ->
+  (forall e, In e D -> word_id lc is_lower (canon e) <> word_id lc is_lower w) ->
+  exists ls sg, lint_text u lc uc is_lower is_upper fuzzy D d (sentp_text (pre ++ SWord w :: post)) = Ok ls /\
+                In (mkslint (word_at pre w) sg) ls.
+Print Assumptions C06_sentence_period_unlisted_reported.
+
+(* positive half: no lint has the span of a word item spelt like a listed form *)
+Theorem C06_sentence_period_listed_accepted :
+  forall (u : uni) (lc uc : char -> list char) (is_lower is_upper : char -> bool) (fuzzy : dict -> text -> nat -> list text),
+  letter_laws u -> digit_law u -> lower_fix lc is_lower ->
+  forall D d e pre w post ls, dict_nodup lc is_lower D -> In e D -> dialect_ok (edialect e) d = true ->
+  sentp_ok u (pre ++ SWord w :: post) = true ->
+  ( w = canon e
+    \/ (normalized (canon e) = canon e /\ lower_case lc is_lower (canon e) /\ w = capitalise uc (canon e) /\
+        Forall (case_regular lc uc) (firstn 1 (canon e)))
+    \/ (normalized (canon e) = canon e /\ lower_case lc is_lower (canon e) /\ w = upper uc (canon e) /\
+        Forall (case_regular lc uc) (canon e)) ) ->
+  lint_text u lc uc is_lower is_upper fuzzy D d (sentp_text (pre ++ SWord w :: post)) = Ok ls ->
+  forall l, In l ls -> sl_span l <> word_at pre w.
+Proof. exact sentp_listed_accepted. Qed.
+Check C06_sentence_period_listed_accepted :
+  forall (u : uni) (lc uc : char -> list char) (is_lower is_upper : char -> bool) (fuzzy : dict -> text -> nat -> list text),
+  letter_laws u -> digit_law u -> lower_fix lc is_lower ->
+  forall D d e pre w post ls, dict_nodup lc is_lower D -> In e D -> dialect_ok (edialect e) d = true ->
+  sentp_ok u (pre ++ SWord w :: post) = true ->
+  ( w = canon e
+    \/ (normalized (canon e) = canon e /\ lower_case lc is_lower (canon e) /\ w = capitalise uc (canon e) /\
+        Forall (case_regular lc uc) (firstn 1 (canon e)))
+    \/ (normalized (canon e) = canon e /\ lower_case lc is_lower (canon e) /\ w = upper uc (canon e) /\
+        Forall (case_regular lc uc) (canon e)) ) ->
+  lint_text u lc uc is_lower is_upper fuzzy D d (sentp_text (pre ++ SWord w :: post)) = Ok ls ->
+  forall l, In l ls -> sl_span l <> word_at pre w.
+Print Assumptions C06_sentence_period_listed_accepted.
+
+(* every lint of such a sentence covers exactly one of its word items (the period is never reported) *)
+Theorem C06_sentence_period_lints_on_words :
+  forall (u : uni) (lc uc : char -> list char) (is_lower is_upper : char -> bool) (fuzzy : dict -> text -> nat -> list text),
+  letter_laws u -> digit_law u -> fuzzy_listed fuzzy ->
+  forall D d its ls l, dict_nodup lc is_lower D -> sentp_ok u its = true ->
+  lint_text u lc uc is_lower is_upper fuzzy D d (sentp_text its) = Ok ls -> In l ls ->
+  exists pre w post, its = pre ++ SWord w :: post /\ sl_span l = word_at pre w.
+Proof. exact sentp_lints_on_words. Qed.
+Check C06_sentence_period_lints_on_words :
+  forall (u : uni) (lc uc : char -> list char) (is_lower is_upper : char -> bool) (fuzzy : dict -> text -> nat -> list text),
+  letter_laws u -> digit_law u -> fuzzy_listed fuzzy ->
+  forall D d its ls l, dict_nodup lc is_lower D -> sentp_ok u its = true ->
+  lint_text u lc uc is_lower is_upper fuzzy D d (sentp_text its) = Ok ls -> In l ls ->
+  exists pre w post, its = pre ++ SWord w :: post /\ sl_span l = word_at pre w.
+Print Assumptions C06_sentence_period_lints_on_words.
+
+(* non-vacuity: `Hello, helo.` is a sentence of the extended class (5 tokens, Word tokens [0,5) [7,11)); with {hello} exactly
+   `helo` is reported; the side condition is needed: `etc.` alone is ONE Word token [0,4) (condense_latin), so the word
+   item `etc` is not a Word token of its own — and last_word_ok rejects it *)
+Example C06_nonvacuous_sentence_period :
+  let its := [SWord [72;101;108;108;111]; SPunct 44; SSpace 1; SWord [104;101;108;111]]%N in
+  let D := [mkentry [104;101;108;108;111]%N None] in
+  sentp_ok ascii_uni0 its = true /\
+  map tspan (sentp_tokens its) = [mkspan 0 5; mkspan 5 6; mkspan 6 7; mkspan 7 11; mkspan 11 12] /\
+  doc_words ascii_uni0 (sentp_text its) = Ok [mkspan 0 5; mkspan 7 11] /\
+  dict_nodup ascii_lc ascii_is_lower D /\
+  lint_text ascii_uni0 ascii_lc ascii_uc ascii_is_lower ascii_is_upper no_fuzzy D American (sentp_text its)
+    = Ok [mkslint (mkspan 7 11) []] /\
+  sentp_ok ascii_uni0 [SWord [101;116;99]%N] = false /\ sent_ok ascii_uni0 [SWord [101;116;99]%N] = true /\
+  doc_words ascii_uni0 (sentp_text [SWord [101;116;99]%N]) = Ok [mkspan 0 4] /\
+  sentp_ok ascii_uni0 [SWord [101;116]; SSpace 1; SWord [65;76]]%N = false.
+Proof.
+  cbv zeta. split; [vm_compute; reflexivity|]. split; [vm_compute; reflexivity|].
+  split; [apply (sentp_doc_words ascii_uni0 ascii_letter_laws ascii_digit_law); vm_compute; reflexivity|].
+  split; [unfold dict_nodup; vm_compute; repeat constructor; cbn; intuition discriminate|].
+  repeat split; vm_compute; reflexivity.
+Qed.
+
+(* ================= phase 6, step 2: CONTRACTIONS inside a sentence ================= *)
+(* C02's theorems say that the output of condense_pattern is SOME grouping of the input into single tokens and matches; that
+   a match IS merged needs a functional characterisation (Proofs/C06CondFun.v), for any matcher: when the matches fam_scan
+   finds form a chain (sorted, pairwise disjoint, inside the vector), find_all_matches drops none of them and
+   condense_pattern returns `regroup`: each match replaced by one token over its hull, kind = edit (kind of its first token) *)
+Theorem C06_condense_pattern_functional :
+  forall (edit : tkind -> tkind) (ts : list token) (a b : nat), Tiling a b ts ->
+  forall (m : list token -> res nat) (found : list span),
+  fam_scan m ts 0 = Ok found -> Chain (length ts) 0 found ->
+  condense_pattern m edit ts = Ok (regroup edit 0 found ts).
+Proof. exact condense_pattern_fun. Qed.
+Check C06_condense_pattern_functional :
+  forall (edit : tkind -> tkind) (ts : list token) (a b : nat), Tiling a b ts ->
+  forall (m : list token -> res nat) (found : list span),
+  fam_scan m ts 0 = Ok found -> Chain (length ts) 0 found ->
+  condense_pattern m edit ts = Ok (regroup edit 0 found ts).
+Print Assumptions C06_condense_pattern_functional.
+
+(* The class (Model/C06SentenceContr.v): word items, CONTRACTIONS  w1 q w2  (w1, w2 words of phase 5, q = ' or U+2019; not the
+   shape <one character> ' s, which lex_plural_digit glues in the lexer), blank runs, separator punctuation; no two word-like
+   items and no two blank runs adjacent.  `expand cs` is the text as the lexer cuts it (Word Apostrophe Word), `collapse cs` the
+   items after condense_contractions (one word item  w1 q w2).  The token vector of Document::new_plain_english is one
+   token per collapsed item: every Word ' Word is merged, nothing else changes. *)
+Theorem C06_sentence_contraction_tokens :
+  forall u : uni, letter_laws u -> digit_law u -> forall cs : list citem, sentc_ok u cs = true ->
+  document_plain u (sent_text (expand cs)) = Ok (sent_tokens 0 (collapse cs)) /\
+  doc_words u (sent_text (expand cs)) = Ok (sent_words 0 (collapse cs)) /\
+  sent_text (collapse cs) = sent_text (expand cs).
+Proof. exact (fun u L Dl cs H => conj (sentc_document u L Dl cs H) (conj (sentc_doc_words u L Dl cs H) (collapse_text cs))). Qed.
+Check C06_sentence_contraction_tokens :
+  forall u : uni, letter_laws u -> digit_law u -> forall cs : list citem, sentc_ok u cs = true ->
+  document_plain u (sent_text (expand cs)) = Ok (sent_tokens 0 (collapse cs)) /\
+  doc_words u (sent_text (expand cs)) = Ok (sent_words 0 (collapse cs)) /\
+  sent_text (collapse cs) = sent_text (expand cs).
+Print Assumptions C06_sentence_contraction_tokens.
+
+(* converse half: a word or contraction of such a sentence (an item w of collapse cs) whose id no entry has is reported with
+   exactly its span — e.g. `dosn't` at [|pre|, |pre|+6) *)
+Theorem C06_sentence_contraction_unlisted_reported :
+  forall (u : uni) (lc uc : char -> list char) (is_lower is_upper : char -> bool) (fuzzy : dict -> text -> nat -> list text),
+  letter_laws u -> digit_law u -> (forall c, uc c <> []) -> fuzzy_listed fuzzy ->
+  forall D d cs pre w post, dict_nodup lc is_lower D -> sentc_ok u cs = true -> collapse cs = pre ++ SWord w :: post ->
+  (forall e, In e D -> word_id lc is_lower (canon e) <> word_id lc is_lower w) ->
+  exists ls sg, lint_text u lc uc is_lower is_upper fuzzy D d (sent_text (expand cs)) = Ok ls /\
+                In (mkslint (word_at pre w) sg) ls.
+Proof. exact sentc_unlisted_reported. Qed.
+Check C06_sentence_contraction_unlisted_reported :
+  forall (u : uni) (lc uc : char -> list char) (is_lower is_upper : char -> bool) (fuzzy : dict -> text -> nat -> list text),
+  letter_laws u -> digit_law u -> (forall c, uc c <> []) -> fuzzy_listed fuzzy ->
+  forall D d cs pre w post, dict_nodup lc is_lower D -> sentc_ok u cs = true -> collapse cs = pre ++ SWord w :: post ->
+  (forall e, In e D -> word_id lc is_lower (canon e) <> word_id lc is_lower w) ->
+  exists ls sg, lint_text u lc uc is_lower is_upper fuzzy D d (sent_text (expand cs)) = Ok ls /\
+                In (mkslint (word_at pre w) sg) ls.
+Print Assumptions C06_sentence_contraction_unlisted_reported.
+
+(* positive half: no lint has the span of a word / contraction spelt like a listed form (don't, Don't, DON'T, MP3's) *)
+Theorem C06_sentence_contraction_listed_accepted :
+  forall (u : uni) (lc uc : char -> list char) (is_lower is_upper : char -> bool) (fuzzy : dict -> text -> nat -> list text),
+  letter_laws u -> digit_law u -> lower_fix lc is_lower ->
+  forall D d e cs pre w post ls, dict_nodup lc is_lower D -> In e D -> dialect_ok (edialect e) d = true ->
+  sentc_ok u cs = true -> collapse cs = pre ++ SWord w :: post ->
+  ( w = canon e
+    \/ (normalized (canon e) = canon e /\ lower_case lc is_lower (canon e) /\ w = capitalise uc (canon e) /\
+        Forall (case_regular lc uc) (firstn 1 (canon e)))
+    \/ (normalized (canon e) = canon e /\ lower_case lc is_lower (canon e) /\ w = upper uc (canon e) /\
+        Forall (case_regular lc uc) (canon e)) ) ->
+  lint_text u lc uc is_lower is_upper fuzzy D d (sent_text (expand cs)) = Ok ls ->
+  forall l, In l ls -> sl_span l <> word_at pre w.
+Proof. exact sentc_listed_accepted. Qed.
+Check C06_sentence_contraction_listed_accepted :
+  forall (u : uni) (lc uc : char -> list char) (is_lower is_upper : char -> bool) (fuzzy : dict -> text -> nat -> list text),
+  letter_laws u -> digit_law u -> lower_fix lc is_lower ->
+  forall D d e cs pre w post ls, dict_nodup lc is_lower D -> In e D -> dialect_ok (edialect e) d = true ->
+  sentc_ok u cs = true -> collapse cs = pre ++ SWord w :: post ->
+  ( w = canon e
+    \/ (normalized (canon e) = canon e /\ lower_case lc is_lower (canon e) /\ w = capitalise uc (canon e) /\
+        Forall (case_regular lc uc) (firstn 1 (canon e)))
+    \/ (normalized (canon e) = canon e /\ lower_case lc is_lower (canon e) /\ w = upper uc (canon e) /\
+        Forall (case_regular lc uc) (canon e)) ) ->
+  lint_text u lc uc is_lower is_upper fuzzy D d (sent_text (expand cs)) = Ok ls ->
+  forall l, In l ls -> sl_span l <> word_at pre w.
+Print Assumptions C06_sentence_contraction_listed_accepted.
+
+(* every lint of such a sentence covers exactly one word / whole contraction (never a half of a contraction, never the apostrophe) *)
+Theorem C06_sentence_contraction_lints_on_words :
+  forall (u : uni) (lc uc : char -> list char) (is_lower is_upper : char -> bool) (fuzzy : dict -> text -> nat -> list text),
+  letter_laws u -> digit_law u -> fuzzy_listed fuzzy ->
+  forall D d cs ls l, dict_nodup lc is_lower D -> sentc_ok u cs = true ->
+  lint_text u lc uc is_lower is_upper fuzzy D d (sent_text (expand cs)) = Ok ls -> In l ls ->
+  exists pre w post, collapse cs = pre ++ SWord w :: post /\ sl_span l = word_at pre w.
+Proof. exact sentc_lints_on_words. Qed.
+Check C06_sentence_contraction_lints_on_words :
+  forall (u : uni) (lc uc : char -> list char) (is_lower is_upper : char -> bool) (fuzzy : dict -> text -> nat -> list text),
+  letter_laws u -> digit_law u -> fuzzy_listed fuzzy ->
+  forall D d cs ls l, dict_nodup lc is_lower D -> sentc_ok u cs = true ->
+  lint_text u lc uc is_lower is_upper fuzzy D d (sent_text (expand cs)) = Ok ls -> In l ls ->
+  exists pre w post, collapse cs = pre ++ SWord w :: post /\ sl_span l = word_at pre w.
+Print Assumptions C06_sentence_contraction_lints_on_words.
+
+(* non-vacuity: `don't kno, it’s` = [don ' t] blank [kno] , blank [it ’ s]: the lexer yields 9 tokens, Document::parse 6; the
+   Word tokens are [0,5) [6,9) [11,15); with {don't, it's} exactly `kno` is reported; a's (glued by the lexer) is outside *)
+Example C06_nonvacuous_sentence_contraction :
+  let cs := [CC [100;111;110] 39 [116]; CS 1; CW [107;110;111]; CP 44; CS 1; CC [105;116] 8217 [115]]%N in
+  let D := [mkentry [100;111;110;39;116]%N None; mkentry [105;116;39;115]%N None] in
+  sentc_ok ascii_uni0 cs = true /\ length (expand cs) = 10 /\ length (collapse cs) = 6 /\
+  sent_words 0 (collapse cs) = [mkspan 0 5; mkspan 6 9; mkspan 11 15] /\
+  doc_words ascii_uni0 (sent_text (expand cs)) = Ok (sent_words 0 (collapse cs)) /\
+  dict_nodup ascii_lc ascii_is_lower D /\
+  lint_text ascii_uni0 ascii_lc ascii_uc ascii_is_lower ascii_is_upper no_fuzzy D American (sent_text (expand cs))
+    = Ok [mkslint (mkspan 6 9) []] /\
+  sentc_ok ascii_uni0 [CC [97] 39 [115]]%N = false /\ sentc_ok ascii_uni0 [CC [97] 8217 [115]]%N = true /\
+  sentc_ok ascii_uni0 [CC [97] 39 [115;111]]%N = true.
+Proof.
+  cbv zeta. split; [vm_compute; reflexivity|]. split; [reflexivity|]. split; [reflexivity|]. split; [vm_compute; reflexivity|].
+  split; [apply (sentc_doc_words ascii_uni0 ascii_letter_laws ascii_digit_law); vm_compute; reflexivity|].
+  split; [unfold dict_nodup; vm_compute; repeat constructor; cbn; intuition discriminate|].
+  repeat split; vm_compute; reflexivity.
+Qed.
